@@ -23,6 +23,10 @@ CORPUS = {
     "in_lit.py": ("def want(x: int) -> None:\n    pass\ndef f(s: str, n: int) -> None:\n    if s in ('alpha', 'beta', 'gamma', 'delta', 'epsilon'):\n        reveal_type(s)\n        want(s)\n"
                   "    if n not in [10, 20, 30, 40, 50]:\n        return\n    reveal_type(n)\n"),
     "nested.py": ("def outer(c: bool) -> None:\n    x = 1\n    x = 'a'\n    x = None\n    x = 2.5\n    x = b'b'\n    x = (1,)\n    def inner() -> None:\n        reveal_type(x)\n    inner()\n"),
+    "a_iter.py": ("from typing import Iterator\nclass Countdown(Iterator[int]):\n    def __init__(self, n: int) -> None:\n        self.n = n\n    def __next__(self) -> int:\n        self.n -= 1\n        return self.n\n"
+                  "def run() -> None:\n    for i in Countdown(3):\n        print(i)\n"),
+    "b_iter.py": ("from typing import Iterator\nclass Chars:\n    def __init__(self, s: str) -> None:\n        self.s = s\n    def __iter__(self) -> 'Chars':\n        return self\n    def __next__(self) -> str:\n        return self.s\n"
+                  "def consume(it: Iterator[str]) -> None:\n    for c in it:\n        print(c)\ndef run() -> None:\n    consume(Chars('abc'))\n"),
     "a_open.py": "def f(path: str) -> None:\n    open(path)\n    len(path)\n    sorted(path)\n",
     "b_open.py": ("from typing import TextIO, Sized, List\ndef f(path: str) -> TextIO:\n    return open(path)\ndef g(path: str) -> int:\n    return len(path)\n"
                   "def h(path: str) -> List[str]:\n    return sorted(path)\n"),
@@ -32,6 +36,12 @@ CORPUS = {
 
 KNOWN_HISTORY = set()   # corpus files whose shared-Checker difference is known finding D22 (none in the corpus: D22 has its own witness)
 
+# scripts that cannot be imported (they fail at import time): checked without a module object (ast_annotator.annotate_code)
+NOMODULE = {
+    "h_script.py": "import sys\npath = sys.argv[99]\ndef read_text(path):\n    with open(path) as f:\n        return f.read()\nprint(len(read_text(path).split()))\n",
+    "p_script.py": "import sys\npath = sys.argv[99]\nprint(len(read_text(path).splitlines()))\nprint(helper_two)\n",
+}
+
 RUNNER = r'''
 import json, sys, io, contextlib
 sys.path.insert(0, sys.argv[1])
@@ -40,18 +50,36 @@ corpus = json.load(open(sys.argv[2]))
 order = sys.argv[3].split(",")
 shared = make_checker() if len(sys.argv) > 4 and sys.argv[4] == "shared" else None
 out = {}
+if len(sys.argv) > 4 and sys.argv[4] == "nomodule":
+    import contextlib, io
+    from pyanalyze.ast_annotator import annotate_code
+    from pyanalyze.name_check_visitor import NameCheckVisitor
+    for name in order:
+        errs = []
+        class V(NameCheckVisitor):
+            def show_error(self, *a, **k):
+                r = super().show_error(*a, **k)
+                if r is not None:
+                    errs.append(r)
+                return r
+        with contextlib.redirect_stderr(io.StringIO()), contextlib.redirect_stdout(io.StringIO()):
+            annotate_code(corpus[name], visitor_cls=V, show_errors=True)
+        out[name] = sorted([f.get("lineno"), f["code"].name, f["description"]] for f in errs)
+    print(json.dumps(out))
+    sys.exit(0)
 for name in order:
     res = check_code(corpus[name], checker=shared) if shared is not None else check_code(corpus[name])
     import re
-    out[name] = sorted([f.get("lineno"), f["code"].name, re.sub(r"verif_mod_\d+", "verif_mod", f["description"])] for f in res if f.get("code") is not None)
+    # the full rendered message (with the detail lines), module names and file paths normalised
+    out[name] = sorted([f.get("lineno"), f["code"].name, re.sub(r"verif_mod_\d+", "verif_mod", f.get("message") or f["description"])] for f in res if f.get("code") is not None)
 print(json.dumps(out))
 '''
 
 
-def _run(seed, order, corpus_path, runner_path, root, shared=False):
+def _run(seed, order, corpus_path, runner_path, root, shared=False, mode=None):
     env = dict(os.environ)
     env["PYTHONHASHSEED"] = str(seed)
-    p = subprocess.run([sys.executable, runner_path, root, corpus_path, ",".join(order)] + (["shared"] if shared else []), capture_output=True, text=True, env=env, timeout=300)
+    p = subprocess.run([sys.executable, runner_path, root, corpus_path, ",".join(order)] + ([mode] if mode else (["shared"] if shared else [])), capture_output=True, text=True, env=env, timeout=300)
     if p.returncode != 0:
         raise RuntimeError(p.stderr[-800:])
     return json.loads(p.stdout.strip().splitlines()[-1])
@@ -68,7 +96,7 @@ def search():
     try:
         names = sorted(CORPUS)
         base = _run(0, names, cpath, rpath, root)
-        for seed in (1, 2, 3, 7):
+        for seed in (1, 2, 3, 5, 7):
             other = _run(seed, names, cpath, rpath, root)
             for n in names:
                 if other[n] != base[n]:
@@ -89,6 +117,16 @@ def search():
                     a = [x for x in base[n] if x not in sh[n]][:1]
                     b = [x for x in sh[n] if x not in base[n]][:1]
                     return f"{n}: diagnostics differ between a fresh Checker and a Checker that has already checked {order[:order.index(n)]}: {a} vs {b}"
+        # files checked without a module object: each alone (fresh process) against after-the-other in one process
+        with open(cpath, "w") as f:
+            json.dump(NOMODULE, f)
+        nm = sorted(NOMODULE)
+        alone = {n: _run(0, [n], cpath, rpath, root, mode="nomodule")[n] for n in nm}
+        for order in (nm, list(reversed(nm))):
+            both = _run(0, order, cpath, rpath, root, mode="nomodule")
+            for n in nm:
+                if both[n] != alone[n]:
+                    return f"{n} (checked without a module object): diagnostics {both[n]} after {order[:order.index(n)]} in the same process, {alone[n]} alone"
     finally:
         for p in (cpath, rpath):
             os.unlink(p)
@@ -124,7 +162,7 @@ def r_c10(rec):
     msg = search()
     if msg:
         return True, msg
-    return False, "rendered diagnostics are identical across 5 hash seeds and across two check orders on the corpus"
+    return False, "rendered diagnostics are identical across 6 hash seeds and across two check orders on the corpus"
 
 
 REPLAYERS = {"C10.bounded": r_c10, "C10.D22": w_d22}
